@@ -33,6 +33,8 @@ pub enum Pattern {
     SignFlip,
     Tiny,
     Large,
+    /// subnormal magnitudes (1e-40 .. 1e-38), with exact and negative zeros mixed in
+    Denormal,
 }
 
 #[derive(Serialize, Deserialize, Clone, Copy, Debug, PartialEq)]
@@ -102,6 +104,11 @@ impl Slot {
                 }
             }
             Pattern::Tiny => (2.0 * u - 1.0) * 1e-6,
+            Pattern::Denormal => match h % 7 {
+                0 => 0.0,
+                1 => -0.0,
+                _ => (2.0 * u - 1.0) * 1e-38,
+            },
             Pattern::Large => (2.0 * u - 1.0) * 1e3,
         }
     }
@@ -362,14 +369,14 @@ pub(crate) fn draw_optimizer(rng: &mut Rng) -> OptCfg {
         0 => OptCfg::SGD { lr: lr(rng, true), decay: decay(rng) },
         1 => OptCfg::SGDM {
             lr: lr(rng, true),
-            momentum: rng.pick(&[0.0f32, 0.5, 0.9, 0.99]),
-            dampening: rng.pick(&[0.0f32, 0.0, 0.1, 0.5, 0.9]),
+            momentum: rng.pick(&[0.0f32, 0.5, 0.9, 0.99, 0.999]),
+            dampening: rng.pick(&[0.0f32, 0.0, 0.1, 0.5, 0.9, 1.0]),
             decay: decay(rng),
         },
         2 => OptCfg::Adam {
             lr: lr(rng, true),
-            beta1: rng.pick(&[0.0f32, 0.5, 0.9, 0.95]),
-            beta2: rng.pick(&[0.0f32, 0.9, 0.99, 0.999]),
+            beta1: rng.pick(&[0.0f32, 0.5, 0.9, 0.95, 0.999]),
+            beta2: rng.pick(&[0.0f32, 0.9, 0.99, 0.999, 0.9999]),
             epsilon: rng.pick(&[0.0f32, 1e-8, 1e-6, 1e-3]),
             decay: decay(rng),
         },
@@ -382,7 +389,7 @@ pub(crate) fn draw_optimizer(rng: &mut Rng) -> OptCfg {
         },
         _ => OptCfg::RMSprop {
             lr: lr(rng, true),
-            alpha: rng.pick(&[0.0f32, 0.5, 0.9, 0.99]),
+            alpha: rng.pick(&[0.0f32, 0.5, 0.9, 0.99, 0.999]),
             epsilon: rng.pick(&[0.0f32, 1e-8, 1e-6, 1e-3]),
             decay: decay(rng),
             momentum: if rng.chance(0.5) { Some(rng.pick(&[0.5f32, 0.9])) } else { None },
@@ -477,7 +484,7 @@ impl Property for C03 {
             let pattern = if long {
                 rng.pick(&[Pattern::Constant, Pattern::Constant, Pattern::SignFlip, Pattern::Random, Pattern::Sparse])
             } else {
-                rng.pick(&[Pattern::Random, Pattern::Constant, Pattern::Sparse, Pattern::SignFlip, Pattern::Tiny, Pattern::Large])
+                rng.pick(&[Pattern::Random, Pattern::Random, Pattern::Constant, Pattern::Sparse, Pattern::Sparse, Pattern::SignFlip, Pattern::Tiny, Pattern::Large, Pattern::Denormal])
             };
             slots.push(Slot {
                 layer,
